@@ -52,6 +52,11 @@ def _setup() -> None:
         "byte": (U.byte, 8, dims.base("information")),
         "byte/second": (U.byte / U.second, 8, dims.base("information") / dims.T),
         "byte*meter": (U.byte * U.meter, 8, dims.base("information") * dims.L),
+        # prefixes whose base is not ten, left as prefix objects inside the expression
+        "byte*kibi": (U.byte * U.kibi, 8 * 1024, dims.base("information")),
+        "bit*mebi": (U.bit * U.mebi, 2**20, dims.base("information")),
+        "meter*kibi": (U.meter * U.kibi, 1024, dims.L),
+        "kibi**2*second": (U.second * U.kibi**2, 1024**2, dims.T),
     }
     for n, (e, f, d) in comp.items():
         _U[n] = (e, sp.sympify(f), d)
